@@ -2,7 +2,7 @@
    hypervolume routines of the working tree and what they returned (exact rationals: all inputs are
    integers or short dyadics, so every double result is exact); check recomputes with the model. *)
 From Coq Require Import List QArith Bool NArith.
-From DV Require Export Base.Corr Model.C15_HV.
+From DV Require Export Base.Corr Model.C15_HV Model.C15_Sweep.
 Import ListNotations.
 Local Open Scope Q_scope.
 
@@ -13,6 +13,9 @@ Inductive case :=
 | CHv (ref : list Q) (pts : list (list Q)) (grid : bool) (obs : list Q)
 (* benchmarks.tools.hypervolume(front, ref): weights, values of the individuals, optional ref *)
 | CPop (w : list Q) (vals : list (list Q)) (refo : option (list Q)) (obs : list Q)
+(* one / two objectives: the transcribed code paths of _hv.c (chv1, chv2) and pyhv.py (pyhv1, pyhv2)
+   against what the respective implementation returned *)
+| CLow (ref : list Q) (pts : list (list Q)) (obs_c obs_py : option Q)
 (* tools.indicator.hypervolume(front, ref=...): returned index (one per back-end) and the
    leave-one-out values the back-end produced *)
 | CInd (w : list Q) (vals : list (list Q)) (refo : option (list Q)) (obs_idx : list nat)
@@ -20,12 +23,21 @@ Inductive case :=
 
 Definition all_eq (x : Q) (obs : list Q) : bool := forallb (Qeq_bool x) obs.
 
+Definition to_pt (p : list Q) : pt := (hd0 p, hd0 (tl p)).
+Definition opt_eq (v : Q) (o : option Q) : bool := match o with None => true | Some x => Qeq_bool v x end.
+
 Definition check (c : case) : bool :=
   match c with
   | CHv ref pts grid obs =>
       let v := hv ref pts in
       all_eq v obs &&
       (if grid then Qeq_bool v (grid_measure ref pts) && Qeq_bool v (hv_last ref pts) else true)
+  | CLow ref pts oc op =>
+      match ref with
+      | [r] => opt_eq (chv1 r (map hd0 pts)) oc && opt_eq (pyhv1 r (map hd0 pts)) op
+      | [rx; ry] => opt_eq (chv2 rx ry (map to_pt pts)) oc && opt_eq (pyhv2 rx ry (map to_pt pts)) op
+      | _ => false
+      end
   | CPop w vals refo obs => all_eq (pop_hv w vals refo) obs
   | CInd w vals refo oi oc =>
       let P := wobj w vals in
